@@ -5,13 +5,14 @@ CONSTANTS
   StrictFin = TRUE
   NV = 2
   MaxBody = 2
-  MaxOps = 3
+  MaxOps = 2
   MaxOut = 2
   MaxSpin = 1
   Sync = FALSE
   Live = TRUE
   Mode = "free"
   CancelInLoop = FALSE
+  DropCancels = FALSE
   Emit = FALSE
 INVARIANTS TypeOK ContractHolds AtMostOnce ResultOnlyAfterEnd FinalValueAfterResult MonotoneObserved FlagOnlyByCancel
 PROPERTIES WorkerWaitFree CancelTerminates
